@@ -41,6 +41,35 @@ def sig(desc, pk, kind, st):
     return (s[0], setup, main, env) + s[4:]
 
 
+def add_weak_strong_conflict(desc, rng):
+    """the same variable listed weakly in one file of an inheritance chain and strongly in another
+    (documented: a weak inclusion has no effect if the variable is also referenced strongly), plus edits of
+    its value in the family: returns (project, [(edited project, kind)])"""
+    d = copy.deepcopy(desc)
+    cands = [(n, r) for n, r in sorted(d["recipes"].items()) if "buildScript" in r and r.get("buildVars") and r.get("environment")
+             and any(v in r["environment"] for v in r["buildVars"])]
+    if not cands:
+        return None
+    n, r = rng.choice(cands)
+    v = rng.choice(sorted(x for x in r["buildVars"] if x in r["environment"]))
+    if rng.random() < 0.5:
+        # weak in a class, strong in the recipe
+        d["classes"]["cwk"] = {rng.choice(["buildVarsWeak", "checkoutVarsWeak"]): [v]}
+        r["inherit"] = list(r.get("inherit", [])) + ["cwk"]
+    else:
+        # strong in a class, weak in the recipe
+        d["classes"]["cst"] = {"buildVars": [v]}
+        r["inherit"] = list(r.get("inherit", [])) + ["cst"]
+        r["buildVars"] = [x for x in r["buildVars"] if x != v]
+        r["buildVarsWeak"] = sorted(set(r.get("buildVarsWeak", [])) | {v})
+    fam = []
+    for k in range(2):
+        e = copy.deepcopy(d)
+        e["recipes"][n]["environment"][v] = "ws%d" % rng.randrange(1000)
+        fam.append((e, "weak_strong_value"))
+    return d, fam
+
+
 EDITS = ["script", "class_script", "var_value", "var_list_add", "var_list_del", "weak_value", "dep_env", "dep_drop",
          "tool_path", "tool_libs", "provide_var", "meta", "unused_global", "source_file", "global_value"]
 
@@ -214,6 +243,11 @@ def check_usage_independence(ctx, family, label):
                     other = dumped["packages"].get(p2)
                     if other is None:
                         continue
+                    # a package that itself depends on the edited recipe (e.g. the sandbox of the project is built
+                    # from it) legitimately changes its ids with it
+                    if any(pk3["recipe"] == rname for q, pk3 in base["packages"].items() if q == p2 or q.startswith(p2 + "/")):
+                        ctx.count("usage-independence:excluded-depends-on-edited-recipe")
+                        continue
                     ctx.count("usage-independence:compared")
                     for kind in ("checkout", "build", "package"):
                         a, b = pk2["steps"][kind], other["steps"][kind]
@@ -250,7 +284,15 @@ def run(ctx):
     for i in range(n_proj):
         base = proj.Gen(rng).project()
         sandbox = rng.random() < 0.5
+        extra = []
+        if rng.random() < 0.5:
+            ws = add_weak_strong_conflict(base, rng)
+            if ws is not None:
+                base, extra = ws
+                ctx.count("motif:weak-and-strong-in-different-files")
         fam = [(base, sandbox)]
+        for e_, k_ in extra:
+            fam.append((e_, sandbox)); ctx.count("edit:" + k_)
         for _ in range(n_edits):
             e = edit(base, rng)
             if e is not None:
